@@ -537,6 +537,100 @@ pub fn depth2_with(root: &Sig, cw: u32, div: bool, other: LeafMode) -> Vec<Sh> {
     out
 }
 
+/// Depth-2 *pair* shapes: the root has structured operands in two positions at once (every operator
+/// that can produce the operand type in either position), e.g. `and(not(a), not(b))`,
+/// `concat(slice(a), slice(a))`, `equal(concat(..), concat(..))`. Leaves are symbols only; the second
+/// operand is built twice: over the same symbols in the same order and over the swapped symbols, so
+/// rules that test two operands for a common sub-term meet both the matching and the near-miss case.
+pub fn depth2_pairs(root: &Sig, cw: u32, div: bool) -> Vec<Sh> {
+    let mut out = vec![];
+    let n = root.kids.len();
+    let inner = |t: Ty, swapped: bool| -> Vec<Sh> {
+        let mut v = vec![];
+        for sig in signatures(t, cw, div) {
+            let mut cnt = 0u8;
+            let kids: Vec<Sh> = sig
+                .kids
+                .iter()
+                .map(|kt| {
+                    let idx = if swapped { 1 - (cnt % 2) } else { cnt % 2 };
+                    cnt += 1;
+                    Sh::Sym(idx, *kt)
+                })
+                .collect();
+            v.push(Sh::Op(sig.op, sig.params, kids));
+        }
+        v
+    };
+    for p in 0..n {
+        for q in (p + 1)..n {
+            let ip = inner(root.kids[p], false);
+            let iq_same = inner(root.kids[q], false);
+            let iq_swap = inner(root.kids[q], true);
+            for x in ip.iter() {
+                for (y1, y2) in iq_same.iter().zip(iq_swap.iter()) {
+                    for y in [y1, y2] {
+                        let kids: Vec<Sh> = (0..n)
+                            .map(|i| if i == p { x.clone() } else if i == q { y.clone() } else { Sh::Sym(0, root.kids[i]) })
+                            .collect();
+                        let s = Sh::Op(root.op, root.params, kids);
+                        if y as *const Sh == y2 as *const Sh && y1 == y2 {
+                            continue;
+                        }
+                        out.push(s);
+                    }
+                }
+            }
+        }
+    }
+    out
+}
+
+/// Slices of one source put back together by concat: adjacent (the mergeable case), with a gap, overlapping,
+/// from two different sources, in the wrong order, and three-way; plus slices of such concats.
+pub fn slice_concat_family(w: u32) -> Vec<Sh> {
+    let mut out = vec![];
+    if w < 4 {
+        return out;
+    }
+    let x = Sh::Sym(0, Ty::BV(w));
+    let y = Sh::Sym(1, Ty::BV(w));
+    let sl = |e: &Sh, hi: u32, lo: u32| Sh::Op(Op::Slice, [hi, lo], vec![e.clone()]);
+    let cc = |a: Sh, b: Sh| Sh::Op(Op::Concat, [0, 0], vec![a, b]);
+    let mut cuts = vec![1, w / 2, w - 2];
+    cuts.dedup();
+    for m in cuts {
+        // x[hi:m] ++ x[m-1:lo] for the outer bounds full and partial
+        for (hi, lo) in [(w - 1, 0), (w - 2, 0), (w - 1, 1)] {
+            if m > lo && m <= hi {
+                out.push(cc(sl(&x, hi, m), sl(&x, m - 1, lo))); // adjacent
+                out.push(cc(sl(&x, hi, m), sl(&y, m - 1, lo))); // other source
+                out.push(cc(sl(&x, m - 1, lo), sl(&x, hi, m))); // wrong order
+                if m + 1 <= hi {
+                    out.push(cc(sl(&x, hi, m + 1), sl(&x, m - 1, lo))); // gap
+                }
+                if m - 1 > lo {
+                    out.push(cc(sl(&x, hi, m - 1), sl(&x, m - 1, lo))); // overlap by one
+                }
+                out.push(cc(sl(&x, hi, m), sl(&x, m, lo))); // overlap at m
+            }
+        }
+    }
+    if w >= 6 {
+        let a = w / 3;
+        let b = 2 * w / 3;
+        out.push(cc(sl(&x, w - 1, b), cc(sl(&x, b - 1, a), sl(&x, a - 1, 0))));
+        out.push(cc(cc(sl(&x, w - 1, b), sl(&x, b - 1, a)), sl(&x, a - 1, 0)));
+        out.push(cc(sl(&x, w - 1, b), cc(sl(&y, b - 1, a), sl(&x, a - 1, 0))));
+        // slices of a concat that straddle / touch the seam
+        let c = cc(sl(&x, w - 1, a), sl(&y, a - 1, 0));
+        for (hi, lo) in [(a, a - 1), (a - 1, 0), (w - 1, a), (a, 0), (w - 2, 1), (a - 1, a - 1), (a, a)] {
+            out.push(sl(&c, hi, lo));
+        }
+    }
+    out
+}
+
 // ---------------------------------------------------------------------------------------------
 // seeded deeper DAGs
 
